@@ -99,7 +99,7 @@ def run(ctx):
     V.selftest_replay(ctx, "drv_conv", lambda p: ["replay", "--cases", p], cases, corrupt_hist, "an expected value after extend with the last item dropped")
 
     # 3. B
-    rep2 = vlib.run_driver("drv_conv", ["record", "--n", 6000 if q else 120000, "--out", ctx.path("rec")], env=ctx.env())
+    rep2 = vlib.run_driver("drv_conv", ["record", "--n", 4000 if q else 120000, "--out", ctx.path("rec")], env=ctx.env())
     if rep2["events"] == 0 or rep2["sequence_ops"] == 0:
         raise vlib.ToolError("vacuity: no events recorded")
     V.validate(ctx, "Trace_Conv", rep2["trace"], ("conv", "vinit"), fp_trace, "recorded seeded events",
